@@ -86,12 +86,13 @@ package circuitbreaker
 //@   requires unlocked(cb.mutex) && cbCfg(cb) && fn != nil
 //@   requires seq: cbInv(cb)
 //@   ensures seq: inv: cbInv(cb)
-//@   ensures seq: at_most_once: calls(fn) <= 1
+//@   ensures at_most_once: 0 <= calls(fn) && calls(fn) <= 1
+//@   ensures passes_result: calls(fn) == 1 ==> result == ret(fn)
+//@   ensures rejected_is_breaker_error: calls(fn) == 0 ==> result == ErrCircuitBreakerOpen || result == ErrTooManyRequests
 //@   ensures seq: block: old(cb.state) == StateOpen && old(cb.nextAttempt) >= now()
 //@             ==> result == ErrCircuitBreakerOpen && calls(fn) == 0 && cb.state == StateOpen
 //@   ensures seq: half_open_bound: old(cb.state) == StateHalfOpen && old(cb.requestCount) >= cb.maxRequests
 //@             ==> result == ErrTooManyRequests && calls(fn) == 0
-//@   ensures seq: rejected_means_untouched: calls(fn) == 0 ==> result == ErrCircuitBreakerOpen || result == ErrTooManyRequests
 //@   ensures seq: closed_admits: old(cb.state) == StateClosed ==> calls(fn) == 1
 //@   ensures seq: trip: calls(fn) == 1 && result != nil && old(cb.state) == StateClosed
 //@             && (old(cb.lastFailureTime) == TZERO || old(cb.lastFailureTime) + cb.interval >= now())
@@ -100,7 +101,8 @@ package circuitbreaker
 //@             ==> cb.state == StateOpen && cb.nextAttempt == now() + cb.timeout
 //@   ensures seq: closes_only_on_threshold: old(cb.state) != StateClosed && cb.state == StateClosed
 //@             ==> calls(fn) == 1 && result == nil && cb.successThreshold <= (old(cb.state) == StateHalfOpen ? old(cb.successCount) + 1 : 1)
-//@   ensures_panic seq: panic_counts_as_failure: calls(fn) == 1 && cb.lastFailureTime == now() && cbInv(cb)
+//@   ensures_panic panicked_in_fn: calls(fn) == 1
+//@   ensures_panic seq: panic_counts_as_failure: cb.lastFailureTime == now() && cbInv(cb)
 //@   modifies cb.state, cb.failureCount, cb.successCount, cb.requestCount, cb.lastFailureTime, cb.lastSuccessTime, cb.nextAttempt
 
 //@ func NewCircuitBreaker
